@@ -128,36 +128,31 @@ def r1(ctx):
             ctx.fail(b, 'not-a-quotient|' + fn.rsplit('::', 1)[-1], '%s returns %s' % (fn, show_in(b, v)))
             continue
         num, den = v[2], v[3]
+        from analysis.alts import value_alts, flatten, expand
         dps = [t for t in b.calls(DP + '$')]
         ok = len(dps) == 1
         if ok:
-            d = ('field', nosite(sym(b, dps[0].dest)), 0)
-            n = core(num)
+            d = nosite(core(('field', nosite(sym(b, dps[0].dest)), 0)))
+            isd = Pred(lambda u: nosite(core(u)) == d)
+            al = value_alts(ctx.facts, b, peel(num))
+            vals = [core(a_.value) for a_ in al]
+            zero = [x for x in vals if x[0] == 'const' and x[2] == 0]
+            rest = [x for x in vals if x not in zero]
             if answer == 'last':
-                ok = match(n, Call('unwrap_or', Call('slice::last', Pred(lambda u: nosite(u) == nosite(core(d)))), Const(0))) or \
-                    match(n, Call('slice::last', Pred(lambda u: nosite(u) == nosite(core(d)))))
+                ok = len(rest) == 1 and (match(rest[0], Call('slice::last', isd)) or match(rest[0], Call('unwrap_or', Call('slice::last', isd), Const(0))))
             else:
-                ok = has(n, Call('Iterator::min', ANY)) and has(n, Pred(lambda u: nosite(u) == nosite(core(d))))
+                ok = len(rest) == 1 and has(rest[0], Call('Iterator::min', ANY)) and has(rest[0], isd)
         ctx.require(ok, b, 'answer|' + fn.rsplit('::', 1)[-1], '%s: numerator is the DP answer (%s of the cost matrix)' % (fn, answer),
                     '%s: numerator is %s' % (fn, show_in(b, num)))
-        # denominator: var norm with two definitions: const 1.0 and clamped length
-        dn = core(den)
-        defs = []
-        if dn[0] == 'var' or dn[0] == 'phi':
-            loc = dn[2] if dn[0] == 'var' else dn[1]
-            from analysis.sym import defs_of
-            whole, partial = defs_of(b, loc)
-            z = symbolizer(b)
-            for dd in whole:
-                defs.append((dd, simplify(z.rvalue(dd.rv, 0, ())) if hasattr(dd, 'rv') else simplify(z.call(dd))))
-        else:
-            defs.append((None, dn))
+        # denominator: 1.0 when not normalised, otherwise the length clamped to >= 1
+        defs = flatten(expand(ctx.facts, b, nosite(peel(den))))
         if not defs:
             ctx.fail(b, 'divisor|' + fn.rsplit('::', 1)[-1], '%s: cannot resolve the divisor %s' % (fn, show_in(b, den)))
             continue
-        for dd, dv in defs:
+        for alt in defs:
+            dv = alt.value
             c = core(dv)
-            span = dd.span if dd is not None else None
+            span = None
             if c[0] == 'const':
                 ctx.require(c[1].replace('const ', '').startswith('1') and 'f64' in c[1], b, 'divisor-const|' + fn.rsplit('::', 1)[-1],
                             '%s: un-normalised divisor is 1.0' % fn, '%s: constant divisor is %s' % (fn, c[1]), span)
@@ -175,8 +170,8 @@ def r1(ctx):
                 okl = match(inner, Call('CharString::len', ANY))
                 ctx.require(okl, b, 'divisor-length|prefix', 'prefix_distance normalises by |a| in characters', None, span)
             # under `normalized`
-            if dd is not None:
-                ok = any(pol is True and tt[0] == 'arg' for tt, pol, g in atoms_at(b, dd.bb))
+            if len(defs) > 1:
+                ok = any(pol is True and core(tt)[0] == 'arg' for tt, pol in alt.atoms) or any(pol is False and core(tt)[0] == 'un' and core(tt)[2][0] == 'arg' for tt, pol in alt.atoms)
                 ctx.require(ok, b, 'divisor-flag|' + fn.rsplit('::', 1)[-1], 'the length divisor is used under `normalized`', None, span)
         # DP arguments
         if len(dps) == 1:
@@ -190,11 +185,14 @@ def r1(ctx):
     ok = False
     for t in idx:
         r = core(sym(b, t.args[1]))
-        if r[0] == 'agg' and r[2].endswith('Range::Range'):
-            lo, hi = r[3]
-            i_len = Call('CharString::len', Call('CharString::new', ('arg', 1, ANY), ANY))
-            cols = ('bin', 'Add', Call('CharString::len', Call('CharString::new', ('arg', 2, ANY), ANY)), Const(1))
-            ok = match(lo, ('bin', 'Mul', i_len, cols)) and match(hi, ('bin', 'Mul', ('bin', 'Add', i_len, Const(1)), cols))
+        if r[0] == 'agg' and (r[2].endswith('Range::Range') or r[2].endswith('RangeFrom::RangeFrom')):
+            lo = r[3][0]
+            hi = r[3][1] if len(r[3]) > 1 else None
+            xa = [y for y in walk(lo) if isinstance(y, tuple) and y and match(y, Call('CharString::len', Call('CharString::new', ('arg', 1, ANY), ANY)))]
+            xb = [y for y in walk(lo) if isinstance(y, tuple) and y and match(y, Call('CharString::len', Call('CharString::new', ('arg', 2, ANY), ANY)))]
+            if xa and xb:
+                pa, pcols = poly.poly(xa[0]), poly._add(poly.poly(xb[0]), {(): 1}, 1)
+                ok = poly.poly(lo) == poly._mul(pa, pcols) and (hi is None or poly.poly(hi) == poly._mul(poly._add(pa, {(): 1}, 1), pcols))
     ctx.require(ok, b, 'prefix-row', 'prefix_distance takes the minimum over the last row d[|a|*cols .. (|a|+1)*cols]', None)
 
 
